@@ -1,0 +1,146 @@
+//go:build verif
+
+package vm
+
+// Contracts for the deductive verifier in /verif (build tag "verif" only; this
+// file contains no declarations and is not part of any normal build).
+//
+//@ mode int
+//@ implicit [C05]
+//
+// The run-time stack discipline (enough operands on the stack, an active frame for every local
+// access, ...) is a whole-program invariant of compiled code that is not proved here: the
+// preconditions of the memory package are assumed at the VM's call sites.
+//@ option assume-pre memory
+//
+// Internal panics that depend on the typing of the data segment / of run-time values, not on the
+// shape of the instruction, are assumed unreachable (DESIGN.md: compiler/VM interface).
+//@ option assume-implicit nopanic unknown global
+//@ option assume-implicit nopanic cannot convert value to array
+//@ option assume-implicit nopanic can't pop instruction pointer
+//@ option assume-implicit nopanic context not found
+//
+// ---- record view of instruction words (justified at bit level in types/bytecode) -----------------
+//@ abstract bytecode.Type
+//@ func bytecode.(Type).OpCode trusted pure
+//@   ensures result == bcop(b)
+//@ func bytecode.(Type).Src0 trusted pure
+//@   ensures result == bck(b, 0)
+//@ func bytecode.(Type).Src1 trusted pure
+//@   ensures result == bck(b, 1)
+//@ func bytecode.(Type).Src2 trusted pure
+//@   ensures result == bck(b, 2)
+//@ func bytecode.(Type).Src0Addr trusted pure
+//@   ensures result == bca(b, 0)
+//@ func bytecode.(Type).Src1Addr trusted pure
+//@   ensures result == bca(b, 1)
+//@ func bytecode.(Type).Src2Addr trusted pure
+//@   ensures result == bca(b, 2)
+//
+// ---- values are opaque here: the operator algebra is proved in types/value (C11) -----------------
+//@ func value.NewInt trusted pure
+//@ func value.NewFloat trusted pure
+//@ func value.NewString trusted pure
+//@ func value.NewArray trusted pure
+//@ func value.(Type).IsNil trusted pure
+//@ func value.(Type).ToFunction trusted pure
+//@ func value.(Type).ToInt trusted pure
+//@ func value.(Type).ToBool trusted pure
+//@ func value.(Type).ToString trusted pure
+//@ func value.(Type).ToArray trusted pure
+//@ func value.(Type).String trusted pure
+//@ func value.(Type).Abbrev trusted pure
+//@ func value.(Type).Arith trusted pure
+//@ func value.(Type).Mod trusted pure
+//@ func value.(Type).Relational trusted pure
+//@ func value.(Type).Logic trusted pure
+//@ func value.(Type).Shift trusted pure
+//@ func value.(Type).Flip trusted pure
+//@ func value.(Type).Not trusted pure
+//@ func value.(Type).Index trusted pure
+//@ func value.(Type).Len trusted pure
+//@ func value.(Type).Eq trusted pure
+//@ func value.(*Type).SetFrame trusted
+//@   modifies *t
+//@ func memory.(*Type).DumpStack trusted pure
+//
+// ---- the compiler/VM interface --------------------------------------------------------------------
+// What the VM needs of an instruction so that operand fetch and dispatch cannot reach an internal
+// panic. It is the predicate wfInstr that the compiler is proved to establish for everything it emits
+// (types/node/zz_contracts_verif.go, K2_code), except that a RET operand must be fetchable here: the
+// compiler also emits `RET <no value>` after a statement that always returns, which is dead code.
+//@ fun fetchable(k uint64, a int, nds int) bool := k == bytecode.AddrStck || k == bytecode.AddrCls || k == bytecode.AddrLcl
+//@     || ((k == bytecode.AddrDS || k == bytecode.AddrGbl) && 0 <= a && a < nds)
+//@ fun isBinary(op bytecode.OpCode) bool := op == bytecode.ADD || op == bytecode.SUB || op == bytecode.MUL || op == bytecode.DIV || op == bytecode.MOD
+//@     || op == bytecode.AND || op == bytecode.OR || op == bytecode.LT || op == bytecode.GT || op == bytecode.LE || op == bytecode.GE || op == bytecode.EQ || op == bytecode.NE
+//@     || op == bytecode.LSH || op == bytecode.RSH || op == bytecode.IX1 || op == bytecode.ARR
+//@ fun isUnary(op bytecode.OpCode) bool := op == bytecode.NOT || op == bytecode.FLIP || op == bytecode.LEN || op == bytecode.PUSH || op == bytecode.WRITE || op == bytecode.ATON
+//@     || op == bytecode.TOA || op == bytecode.EXIT || op == bytecode.YIELD || op == bytecode.FUNC || op == bytecode.CALL || op == bytecode.JMPF || op == bytecode.JMPT
+//@     || op == bytecode.ADDTMP || op == bytecode.SUBTMP || op == bytecode.MULTMP || op == bytecode.DIVTMP || op == bytecode.MODTMP || op == bytecode.ANDTMP || op == bytecode.ORTMP
+//@     || op == bytecode.LTTMP || op == bytecode.GTTMP || op == bytecode.LETMP || op == bytecode.GETMP || op == bytecode.EQTMP || op == bytecode.NETMP || op == bytecode.LSHTMP || op == bytecode.RSHTMP
+//@ fun isNullary(op bytecode.OpCode) bool := op == bytecode.POP || op == bytecode.READ || op == bytecode.PUSHTMP || op == bytecode.NOTTMP || op == bytecode.FLIPTMP
+//@     || op == bytecode.LENTMP || op == bytecode.JMP || op == bytecode.CCONT || op == bytecode.DCONT || op == bytecode.RCONT || op == bytecode.SCONT
+//@ fun wfExec(i bytecode.Type, nds int) bool :=
+//@        (isBinary(bcop(i)) && fetchable(bck(i, 0), bca(i, 0), nds) && fetchable(bck(i, 1), bca(i, 1), nds))
+//@     || (bcop(i) == bytecode.IX2 && fetchable(bck(i, 0), bca(i, 0), nds) && fetchable(bck(i, 1), bca(i, 1), nds) && fetchable(bck(i, 2), bca(i, 2), nds))
+//@     || (isUnary(bcop(i)) && fetchable(bck(i, 0), bca(i, 0), nds))
+//@     || isNullary(bcop(i))
+//@     || (bcop(i) == bytecode.RET && fetchable(bck(i, 0), bca(i, 0), nds))
+//@     || (bcop(i) == bytecode.INC && (bck(i, 0) == bytecode.AddrLcl || bck(i, 0) == bytecode.AddrGbl) && fetchable(bck(i, 0), bca(i, 0), nds))
+//@     || (bcop(i) == bytecode.MOV && (fetchable(bck(i, 0), bca(i, 0), nds) || bck(i, 0) == bytecode.AddrTmp)
+//@         && (bck(i, 1) == bytecode.AddrLcl || bck(i, 1) == bytecode.AddrTmp || (bck(i, 1) == bytecode.AddrGbl && fetchable(bck(i, 1), bca(i, 1), nds))))
+//@ pred codeWF(cs *[]bytecode.Type, ds *[]value.Type) bool := cs != nil && ds != nil && (forall i :: 0 <= i && i < len(*cs) ==> wfExec((*cs)[i], len(*ds)))
+//
+// Operand fetch: every operand kind a well-formed instruction can carry is served; the data-segment
+// operand is the constant itself.
+//@ func (*Type).fetch [C05,C01]
+//@   checks panic [C05]
+//@   requires[kind] src == bytecode.AddrStck || src == bytecode.AddrDS || src == bytecode.AddrCls || src == bytecode.AddrLcl || src == bytecode.AddrGbl
+//@   modifies *m
+//@   ensures[constant;C01,C10] src == bytecode.AddrDS ==> result == (*ds)[addr]
+//@   ensures[only_stack_pops;C01,C09] src != bytecode.AddrStck ==> field[int](m, "sp") == old(field[int](m, "sp"))
+//
+// deleteContext recycles a context and everything forked from it. Assumed (tree-shaped context
+// structure): the only child table it empties that the caller can still reach is the context's own.
+//@ func deleteContext [C09,C02] trusted
+//@   modifies imrow(ctxp.children)
+//@   ensures forall k uint64 :: !imhas(ctxp.children, k)
+//
+// After a runtime error the machine is back in its initial state (C08: nothing of the failed
+// statement survives but its globals; C19: producing the report never fails) whichever context failed.
+//@ func (*Type).dumpStack [C08,C19,C09]
+//@   checks slice index [C19]
+//@   requires[ip_in_code;C19] 0 <= ip && ip <= len(*vm.CR.CS)
+//@   assumes vm != nil && vm.main != nil && vm.main.m != nil && vm.main.children != nil && vm.CR.CS != nil
+//@   modifies vm.main.ip, *vm.main.m, imrow(vm.main.children)
+//@   ensures[main_reset;C08,C19,C09] vm.main.ip == len(*vm.CR.CS) && field[int](vm.main.m, "sp") == 0 && len(field[[]int](vm.main.m, "fp")) == 0 && len(field[[]memory.Frame](vm.main.m, "closure")) == 0
+//@   ensures[no_contexts;C08,C09] forall k uint64 :: !imhas(vm.main.children, k)
+//@   ensures[error_kept;C08,C19] result1 == err
+//@   loop 0 invariant -1 <= rangeindex && rangeindex < len(values)
+//@   loop 1 invariant -1 <= rangeindex__2 && rangeindex__2 < end - start
+//@   loop 2 invariant true
+//
+// The run loop.
+//@ func (*Type).Run [C05,C10,C04,C03,C18,C02,C09,C17,C19]
+//@   checks panic [C05]
+//@   requires[code_wf] vm != nil && vm.main != nil && codeWF(vm.CR.CS, vm.CR.DS)
+//@   modifies *
+//@   loop 0 invariant[code] cs == vm.CR.CS && ds == vm.CR.DS && codeWF(cs, ds)
+//@   loop 1 invariant[rcont;C09,C02] cs == vm.CR.CS && ds == vm.CR.DS && codeWF(cs, ds) && (forall j :: lo <= j && j < i ==> !imhas(ctxp.children, hashContext(m, j)))
+//@   loop 2 invariant[dcont;C09,C02] cs == vm.CR.CS && ds == vm.CR.DS && codeWF(cs, ds) && (forall j :: lo__2 <= j && j < i__2 ==> !imhas(ctxp.children, hashContext(m, j)))
+//
+// C10: the array built by an array-literal step is new storage, whatever its operands were.
+//@   atcall value.NewArray(slc) with (callee_a []value.Type) requires[array_is_fresh;C10] fresh(callee_a)
+//
+// C04/C03: a function value that leaves its defining call takes its own copy of the frame it captured.
+//@   atcall val.SetFrame(&frame) #2 with (callee_frame *[]value.Type) requires[returned_closure_detached;C04,C03] fresh(*callee_frame)
+//@       && len(*callee_frame) == len(*f__2.Frame) && (forall j :: 0 <= j && j < len(*callee_frame) ==> (*callee_frame)[j] == (*f__2.Frame)[j])
+//
+// C18/C02: a forked context, new or recycled, is a child of the context that forked it and runs on the cloned memory.
+//@   atcall ctxp.children.Put(ctxHash, childCtx) with (callee_val *context) requires[fork_parent;C18,C02] callee_val.parent == ctxp && callee_val.m == m && m != ctxp.m
+//
+// C17: aton refuses a string only when it is neither an integer nor a float literal.
+//@   atcall vm.dumpStack(ctxp, ip, ErrConversion, val) with (callee_ip int) requires[conversion_error_only_if_unparsable;C17] !atoiOK(string(sv)) && !parseFloatOK(string(sv))
+//
+// C19: the report is about the instruction that failed.
+//@   atcall vm.dumpStack with (callee_ip int, callee_err error) requires[report_points_at_failure;C19] callee_ip == ip && callee_err != nil
